@@ -362,7 +362,7 @@ def strat_lstsq(tier):
         'k': st.one_of(st.sampled_from([1, 2, 3]), st.integers(1, 10)), 'shape': st.one_of(st.tuples(d, d).map(list), d.map(lambda a: [a, a])),
         'modes': st.sampled_from(['random', 'random', 'zernike', 'hermite', 'xy']),
         'mask': st.sampled_from(['none', 'nan', 'nan', 'inf', 'mixed', 'mixed', 'row', 'disc']),
-        'frac': st.sampled_from([0.05, 0.2, 0.5]), 'container': st.sampled_from(['array', 'list']), 'seed': U.seeds})
+        'frac': st.sampled_from([0.05, 0.2, 0.5]), 'container': st.sampled_from(['array', 'list']), 'layout': U.layouts, 'seed': U.seeds})
 
 
 def _mode_stack(kind, k, shape, seed):
@@ -426,6 +426,9 @@ def check_lstsq(case, ctx):
 
     d1 = data.copy()
     d1[bad] = marks[bad]
+    lay = case.get('layout', 'C')
+    ctx.label('layout:' + lay)
+    d1 = U.relayout(d1, lay)       # same values, another memory layout (Fortran order / transposed view / strided view)
     got = fit(d1)
     tol = 1e-9 * max(1.0, cond / 1e2)
     U.check_close(got, c, 0.0, 'lstsq:synthesis:' + cls, 'lstsq on %d %s modes %s, %d of %d samples non-finite (cond %.3g)' % (
